@@ -154,6 +154,10 @@ pub enum BOp {
     KeyingEquiv { key: Vec<u8> },
     /// salted_expand(0..0, key) equals expand(key) starting from state i
     ZeroSaltEquiv { i: u8, zeros: u16, key: Vec<u8> },
+    /// an input of 2^32 + extra bytes (zero except for `head` at its start; lazily mapped, only the pages read are
+    /// ever touched): form 0 = bc_expand_key(huge), 1 = salted_expand_key(salt = huge, key = other),
+    /// 2 = salted_expand_key(salt = other, key = huge). 64-bit native targets only.
+    Huge { i: u8, form: u8, head: Vec<u8>, extra: u16, other: Vec<u8> },
 }
 
 impl BOp {
@@ -170,6 +174,7 @@ impl BOp {
             BOp::CostLoop { i, cost, salt, key } => json!({"op":"cost_loop","i":i,"cost":cost,"salt":hex(salt),"key":hex(key)}),
             BOp::KeyingEquiv { key } => json!({"op":"keying_equiv","key":hex(key)}),
             BOp::ZeroSaltEquiv { i, zeros, key } => json!({"op":"zero_salt_equiv","i":i,"zeros":zeros,"key":hex(key)}),
+            BOp::Huge { i, form, head, extra, other } => json!({"op":"huge_input","i":i,"form":form,"head":hex(head),"extra":extra,"other":hex(other)}),
         }
     }
     fn from_json(v: &Value) -> Option<BOp> {
@@ -187,6 +192,7 @@ impl BOp {
             "cost_loop" => BOp::CostLoop { i: u("i")? as u8, cost: u("cost")? as u8, salt: h("salt")?, key: h("key")? },
             "keying_equiv" => BOp::KeyingEquiv { key: h("key")? },
             "zero_salt_equiv" => BOp::ZeroSaltEquiv { i: u("i")? as u8, zeros: u("zeros")? as u16, key: h("key")? },
+            "huge_input" => BOp::Huge { i: u("i")? as u8, form: u("form")? as u8, head: h("head")?, extra: u("extra")? as u16, other: h("other")? },
             _ => return None,
         })
     }
@@ -203,6 +209,7 @@ impl BOp {
             BOp::CostLoop { .. } => "cost_loop",
             BOp::KeyingEquiv { .. } => "keying_equiv",
             BOp::ZeroSaltEquiv { .. } => "zero_salt_equiv",
+            BOp::Huge { .. } => "huge_input",
         }
     }
 }
@@ -277,6 +284,39 @@ impl<'a> BWorld<'a> {
                 self.real[i].as_mut().unwrap().bc_expand_key(key);
                 self.model[i].as_mut().unwrap().expand(None, key);
                 self.compare(i, 64, "bc_expand_key")?;
+            }
+            BOp::Huge { i, form, head, extra, other } => {
+                let i = idx(*i);
+                if cfg!(miri) || cfg!(not(target_pointer_width = "64")) || other.is_empty() || self.real[i].is_none() {
+                    return Ok(false);
+                }
+                #[cfg(target_pointer_width = "64")]
+                {
+                    let n = (1usize << 32) + *extra as usize;
+                    let mut big: Vec<u8> = Vec::new();
+                    if big.try_reserve_exact(n).is_err() {
+                        return Ok(false); // the machine refuses the mapping: nothing to learn here
+                    }
+                    // zero pages from the allocator, mapped lazily
+                    big = vec![0u8; n];
+                    big[..head.len()].copy_from_slice(head);
+                    let (real, model) = (self.real[i].as_mut().unwrap(), self.model[i].as_mut().unwrap());
+                    match form % 3 {
+                        0 => {
+                            real.bc_expand_key(&big);
+                            model.expand(None, &big);
+                        }
+                        1 => {
+                            real.salted_expand_key(&big, other);
+                            model.expand(Some(&big), other);
+                        }
+                        _ => {
+                            real.salted_expand_key(other, &big);
+                            model.expand(Some(other), &big);
+                        }
+                    }
+                }
+                self.compare(i, 64, "an expansion with an input longer than 2^32 bytes")?;
             }
             BOp::Salted { i, salt, key } => {
                 let i = idx(*i);
@@ -467,7 +507,7 @@ fn gen_bytes(rng: &mut Prng, len: usize) -> Vec<u8> {
 fn gen_ops(rng: &mut Prng, max_cost: u8) -> Vec<BOp> {
     let n = rng.range(4, 40) as usize;
     let mut ops = vec![BOp::Init { i: 0 }];
-    let w: [u32; 11] = [6, 14, 14, 10, 8, 5, 4, 3, 3, 3, 4];
+    let w: [u32; 12] = [6, 14, 14, 10, 8, 5, 4, 3, 3, 3, 4, 1];
     let mut w2 = w;
     for x in w2.iter_mut() {
         if rng.chance(1, 5) {
@@ -488,6 +528,7 @@ fn gen_ops(rng: &mut Prng, max_cost: u8) -> Vec<BOp> {
             7 => BOp::Drop { i },
             8 => BOp::CostLoop { i, cost: rng.below(max_cost as u64 + 1) as u8, salt: { let l = if rng.chance(2, 3) { 16 } else { gen_len(rng) }; gen_bytes(rng, l) }, key: { let l = gen_len(rng); gen_bytes(rng, l) } },
             9 => BOp::KeyingEquiv { key: { let l = rng.range(4, 56) as usize; rng.bytes(l) } },
+            11 => BOp::Huge { i, form: rng.below(3) as u8, head: { let l = rng.range(1, 80) as usize; rng.bytes(l) }, extra: *rng.pick(&[1u16, 2, 3, 5, 16, 71, 72, 73, 100, 4167, 4168, 5000]), other: { let l = gen_len(rng); gen_bytes(rng, l) } },
             _ => BOp::ZeroSaltEquiv { i, zeros: *rng.pick(&[1u16, 3, 4, 16, 17, 40, 72, 73, 100, 300]), key: { let l = gen_len(rng); gen_bytes(rng, l) } },
         };
         ops.push(op);
